@@ -18,6 +18,7 @@ import (
 
 	"pgregory.net/rapid"
 
+	"github.com/tink-crypto/tink-go/v2/internal/config/signprehashconfig"
 	"github.com/tink-crypto/tink-go/v2/internal/internalapi"
 	icomp "github.com/tink-crypto/tink-go/v2/internal/signature/compositemldsa"
 	"github.com/tink-crypto/tink-go/v2/jwt"
@@ -268,11 +269,23 @@ func TestPrehash(t *testing.T) {
 		var phs tink.PrehashSigner
 		var err error
 		if c.route == "handle" {
-			if ph, err = signprehash.NewPrehash(c.pubHandle); err != nil {
-				rt.Fatalf("%v: signprehash.NewPrehash: %v", c, err)
-			}
-			if phs, err = signprehash.NewPrehashSigner(c.privHandle); err != nil {
-				rt.Fatalf("%v: signprehash.NewPrehashSigner: %v", c, err)
+			if rapid.Bool().Draw(rt, "config_v0_factory") {
+				// the other public factory pair: ...WithConfig with the V0 configuration
+				v0 := signprehashconfig.V0()
+				if ph, err = signprehash.NewPrehashWithConfig(c.pubHandle, &v0); err != nil {
+					rt.Fatalf("%v: signprehash.NewPrehashWithConfig(V0): %v", c, err)
+				}
+				if phs, err = signprehash.NewPrehashSignerWithConfig(c.privHandle, &v0); err != nil {
+					rt.Fatalf("%v: signprehash.NewPrehashSignerWithConfig(V0): %v", c, err)
+				}
+				evid.Add("prehash_config_v0_factory", 1)
+			} else {
+				if ph, err = signprehash.NewPrehash(c.pubHandle); err != nil {
+					rt.Fatalf("%v: signprehash.NewPrehash: %v", c, err)
+				}
+				if phs, err = signprehash.NewPrehashSigner(c.privHandle); err != nil {
+					rt.Fatalf("%v: signprehash.NewPrehashSigner: %v", c, err)
+				}
 			}
 		} else {
 			if ph, err = prehashmldsa.NewPrehash(c.pub, internalapi.Token{}); err != nil {
